@@ -23,6 +23,7 @@ def gen_plan(rng, prop):
     kind = wchoice(rng, [("marginal-joint", 40), ("marginal-product", 40), ("default", 20)])
     cfg = {"names": names, "names_kind": nk, "storage": s, "imputer": kind, "seed": rng.getrandbits(32),
            "values": "unique" if rng.random() < 0.7 else "ties", "extra_keys": rng.random() < 0.3,
+           "hetero": rng.random() < 0.25,
            "model": wchoice(rng, [("scalar", 60), ("multi", 40)]),
            "rng": wchoice(rng, [("perop", 50), ("tape", 35), ("once", 15)])}
     T = wchoice(rng, [(rng.randint(3, 10), 35), (rng.randint(10, 30), 45), (rng.randint(30, 60), 20)])
@@ -88,6 +89,12 @@ def run_imputer_plan(plan):
             x[nme] = tag * 8 + j + 1 if cfg["values"] == "unique" else H(seed, "x", tag, j) % 3
         if cfg.get("extra_keys"):
             x["__extra__"] = tag * 8
+        if cfg.get("hetero"):
+            # observations of a stream need not all carry the same optional keys, nor in the same order
+            if H(seed, "opt", tag) % 3 == 0:
+                x["__opt__"] = tag * 8 + 7
+            if H(seed, "ord", tag) % 2:
+                x = dict(reversed(list(x.items())))
         return x
 
     events = []
